@@ -805,3 +805,103 @@ func extractOf(t ssa.Value, i int) *ssa.Extract {
 }
 
 func sortStrings(s []string) { sort.Strings(s) }
+
+// FnReach is a transitive summary over the call graph seeded by a predicate
+// on functions ("contains a store to field X", …).
+type FnReach struct {
+	l    *Loaded
+	memo map[*ssa.Function]bool
+}
+
+func (l *Loaded) newFnReach(base func(fn *ssa.Function) bool, barrier ...*ssa.Function) *FnReach {
+	r := &FnReach{l: l, memo: map[*ssa.Function]bool{}}
+	bar := map[*ssa.Function]bool{}
+	for _, b := range barrier {
+		if b != nil {
+			bar[b] = true
+		}
+	}
+	for fn := range l.CG.Nodes {
+		if fn != nil && fn.Blocks != nil && !bar[fn] && base(fn) {
+			r.memo[fn] = true
+		}
+	}
+	changed := true
+	for changed {
+		changed = false
+		for fn, n := range l.CG.Nodes {
+			if fn == nil || r.memo[fn] || bar[fn] {
+				continue
+			}
+			for _, e := range n.Out {
+				if r.memo[e.Callee.Func] {
+					r.memo[fn] = true
+					changed = true
+					break
+				}
+			}
+		}
+	}
+	return r
+}
+
+func (r *FnReach) Fn(fn *ssa.Function) bool { return r.memo[fn] }
+
+// Instr: the call instruction may enter a function of the summary.
+func (r *FnReach) Instr(in ssa.Instruction) bool {
+	for _, g := range r.l.calleesOf(in) {
+		if r.memo[g] {
+			return true
+		}
+	}
+	return false
+}
+
+// writesField: fn contains a Store through a FieldAddr of one of fields.
+func writesField(fn *ssa.Function, fields ...*types.Var) bool {
+	found := false
+	allInstrs(fn, func(in ssa.Instruction) {
+		if st, ok := in.(*ssa.Store); ok {
+			if fa, ok := st.Addr.(*ssa.FieldAddr); ok {
+				fv := fieldVar(fa.X.Type(), fa.Field)
+				for _, f := range fields {
+					if f != nil && fv == f {
+						found = true
+					}
+				}
+			}
+		}
+	})
+	return found
+}
+
+func isStoreToField(in ssa.Instruction, fields ...*types.Var) bool {
+	st, ok := in.(*ssa.Store)
+	if !ok {
+		return false
+	}
+	fa, ok := st.Addr.(*ssa.FieldAddr)
+	if !ok {
+		return false
+	}
+	fv := fieldVar(fa.X.Type(), fa.Field)
+	for _, f := range fields {
+		if f != nil && fv == f {
+			return true
+		}
+	}
+	return false
+}
+
+func ifaceHasMethod(t types.Type, name string) bool {
+	it, ok := t.Underlying().(*types.Interface)
+	if !ok {
+		return false
+	}
+	for i := 0; i < it.NumMethods(); i++ {
+		if it.Method(i).Name() == name {
+			return true
+		}
+	}
+	return false
+}
